@@ -12,7 +12,13 @@ import (
 
 // FuncInfo is a declared function of the module with the per-function
 // indexes the rules need: parent links, definition sites of local variables.
+type pkgIndex struct {
+	parent map[ast.Node]ast.Node
+	defs   map[*types.Var][]defSite
+}
+
 type FuncInfo struct {
+	C    *Ctx
 	Pkg  *packages.Package
 	Decl *ast.FuncDecl
 	Obj  *types.Func
@@ -30,9 +36,9 @@ type defSite struct {
 	kind string   // define, assign, range-key, range-val, incdec, addr, typeswitch, param
 }
 
-func newFuncInfo(p *packages.Package, fd *ast.FuncDecl, obj *types.Func) *FuncInfo {
-	fi := &FuncInfo{Pkg: p, Decl: fd, Obj: obj, Name: funcName(obj), Info: p.TypesInfo,
-		parent: map[ast.Node]ast.Node{}, defs: map[*types.Var][]defSite{}}
+func newFuncInfo(c *Ctx, p *packages.Package, fd *ast.FuncDecl, obj *types.Func) *FuncInfo {
+	fi := &FuncInfo{C: c, Pkg: p, Decl: fd, Obj: obj, Name: funcName(obj), Info: p.TypesInfo,
+		parent: c.idx[p].parent, defs: c.idx[p].defs}
 	var stack []ast.Node
 	ast.Inspect(fd, func(n ast.Node) bool {
 		if n == nil {
@@ -132,7 +138,7 @@ func (fi *FuncInfo) singleDef(v *types.Var) *defSite {
 		return nil
 	}
 	d := ds[0]
-	if d.kind != "define" || d.rhs == nil {
+	if (d.kind != "define" && d.kind != "param") || d.rhs == nil {
 		return nil
 	}
 	return &d
@@ -489,7 +495,7 @@ func callsIn(n ast.Node) []*ast.CallExpr {
 // callsTo returns the calls inside fi's body whose resolved callee is one of names.
 func (fi *FuncInfo) callsTo(names ...string) []*ast.CallExpr {
 	var out []*ast.CallExpr
-	for _, c := range callsIn(fi.Decl.Body) {
+	for _, c := range fi.callsDeep(fi.Decl.Body) {
 		n := fi.calleeName(c)
 		for _, w := range names {
 			if n == w && n != "" {
@@ -548,4 +554,36 @@ func (fi *FuncInfo) within(n, anc ast.Node) bool {
 // isAncestor: anc strictly contains n by position (cheap test).
 func contains(anc, n ast.Node) bool {
 	return anc != nil && n != nil && anc.Pos() <= n.Pos() && n.End() <= anc.End()
+}
+
+// inspect walks root like ast.Inspect and additionally descends into the body
+// of every linked helper (a helper with a single call site, see Ctx.link) at
+// its call expression, so code moved into such a helper is still found.
+func (fi *FuncInfo) inspect(root ast.Node, f func(ast.Node) bool) {
+	if root == nil {
+		return
+	}
+	ast.Inspect(root, func(n ast.Node) bool {
+		if !f(n) {
+			return false
+		}
+		if call, ok := n.(*ast.CallExpr); ok && fi.C != nil {
+			if h := fi.C.linked[call]; h != nil {
+				fi.inspect(h.Decl.Body, f)
+			}
+		}
+		return true
+	})
+}
+
+// callsDeep returns every call expression inside n including those inside linked helpers.
+func (fi *FuncInfo) callsDeep(n ast.Node) []*ast.CallExpr {
+	var out []*ast.CallExpr
+	fi.inspect(n, func(m ast.Node) bool {
+		if c, ok := m.(*ast.CallExpr); ok {
+			out = append(out, c)
+		}
+		return true
+	})
+	return out
 }
